@@ -10,7 +10,7 @@ from mc.core import Result, SubCheck
 
 PROPERTY = "C17"
 ASSUMPTIONS = [
-    "clean_composite_curve: every polyline with strictly descending T (n<=6 quick / 7 thorough) and H in {0..3}^n, at scales 1 and 1e-3, plus +-5e-7 perturbations of one point",
+    "clean_composite_curve: finely sampled smooth / kinked curves of 101 and 401 points with spans 0.14 .. 5000, and every polyline with strictly descending T (n<=6 quick / 7 thorough) and H in {0..3}^n, at scales 1 and 1e-3, plus +-5e-7 perturbations of one point",
     "get_piecewise_data_points: every polyline with x = 0..n-1 and y in {0..3}^n (n = 2..6 quick / 7 thorough), eps in {0.1,0.5,1}, hot and cold; "
     "finite parametrised families (convex, concave, sigmoid, staircase, steam-like) of 11/50/500 points reach the refinement branch",
     "distance = Euclidean point-to-polyline distance in the curve's own coordinates (the metric the library's RDP uses)",
@@ -19,6 +19,10 @@ ASSUMPTIONS = [
 
 # ------------------------------------------------------------------ clean_composite_curve
 def clean_cases(tier, inst):
+    for kind in ("convex", "kink", "s-shaped"):
+        for n in (101, 401):
+            for span in (0.14, 1.0, 60.0, 5000.0):
+                yield {"dense": [kind, n, span]}
     nmax = 6 if tier == "quick" else 7
     for n in range(2, nmax + 1):
         for v in itertools.product(range(4), repeat=n):
@@ -29,22 +33,53 @@ def clean_cases(tier, inst):
                 for k in range(n):
                     for d in (5e-7, -5e-7, 2e-6):
                         yield {"H": list(v), "scale": 1.0, "pert": [k, d]}
+                    # finely spaced enthalpies (1e-3 apart) with one temperature moved by 1e-4 K: 100 x the tolerance, must survive
+                    yield {"H": list(v), "scale": 1e-3, "pert": None, "tpert": [k, 1e-4]}
+
+
+def dense_curve(kind, n, span):
+    """finely sampled composite curves (neighbouring enthalpies much closer than one unit for small spans)"""
+    T = [300.0 - 200.0 * i / (n - 1) for i in range(n)]
+    u = [i / (n - 1) for i in range(n)]
+    if kind == "convex":
+        H = [span * (1 - x) ** 2 for x in u]
+    elif kind == "kink":
+        H = [span * (1 - x) if x < 0.5 else span * 0.5 - span * 0.2 * (x - 0.5) for x in u]
+    else:   # s-shaped
+        H = [span * (1 - (3 * x * x - 2 * x ** 3)) for x in u]
+    return T, H
 
 
 def clean_run(case, res: Result):
     from OpenPinch.utils.miscellaneous import clean_composite_curve
 
+    if case.get("dense"):
+        kind, n, span = case["dense"]
+        T, H = dense_curve(kind, n, span)
+        Tk, Hk = clean_composite_curve(list(T), list(H))
+        Tk, Hk = [float(t) for t in Tk], [float(h) for h in Hk]
+        res.add_case(case, 0 < len(Tk) <= n, outcome=[len(Tk)])
+        if len(Tk) < 2:
+            res.violate("non_flat_curve_removed_entirely", case, {"kept": len(Tk)}, "clean:dense:removed")
+            return
+        f = np.interp(T[::-1], Tk[::-1], Hk[::-1])[::-1]
+        worst = float(np.max(np.abs(f - np.asarray(H))))
+        if worst > 1e-6 + 1e-12:
+            res.violate("curve_moved", case, {"curve": case["dense"], "kept_points": len(Tk), "max_deviation": worst}, f"clean:curve_moved:dense:{kind}")
+        return
     H = [h * case["scale"] for h in case["H"]]
     if case["pert"]:
         H[case["pert"][0]] += case["pert"][1]
     n = len(H)
     T = [float(100 - 10 * i) for i in range(n)]
+    if case.get("tpert"):
+        T[case["tpert"][0]] += case["tpert"][1]
     Tk, Hk = clean_composite_curve(list(T), list(H))
     Tk, Hk = [float(t) for t in Tk], [float(h) for h in Hk]
     span = max(H) - min(H)
     removed = n - len(Tk)
     res.add_case(case, 0 < len(Tk) < n, outcome=[Tk, Hk])
-    tag = ("scaled" if case["scale"] != 1.0 else "unit") + (":pert" if case["pert"] else "")
+    tag = ("scaled" if case["scale"] != 1.0 else "unit") + (":pert" if case["pert"] else "") + (":tpert" if case.get("tpert") else "")
     detail = {"T": T, "H": H, "kept_T": Tk, "kept_H": Hk}
     if len(Tk) == 0:
         if span > 2e-6:
